@@ -24,6 +24,7 @@ type SiteDecl struct {
 	Pattern string
 	K       int
 	Alias   string
+	Only    bool // `site P#1 as a only`: no other call in the function matches P and this one is not in a loop
 }
 
 type SiteAssert struct {
@@ -327,8 +328,13 @@ func parseContractFile(path string) (*ContractFile, error) {
 		case "site":
 			// site Pattern#k as alias
 			fs := strings.Fields(rest)
+			only := false
+			if len(fs) == 4 && fs[3] == "only" {
+				only = true
+				fs = fs[:3]
+			}
 			if len(fs) != 3 || fs[1] != "as" {
-				return nil, fail("site syntax: site Callee#k as alias")
+				return nil, fail("site syntax: site Callee#k as alias [only]")
 			}
 			h := strings.LastIndex(fs[0], "#")
 			if h < 0 {
@@ -338,7 +344,7 @@ func parseContractFile(path string) (*ContractFile, error) {
 			if err != nil || k < 1 {
 				return nil, fail("bad site ordinal")
 			}
-			cur.Sites = append(cur.Sites, SiteDecl{Pattern: fs[0][:h], K: k, Alias: fs[2]})
+			cur.Sites = append(cur.Sites, SiteDecl{Pattern: fs[0][:h], K: k, Alias: fs[2], Only: only})
 		case "requires", "ensures":
 			c, err := parseClause(rest, path, ln)
 			if err != nil {
